@@ -324,6 +324,14 @@ func TestFixedSpecs(t *testing.T) {
 		"grammar g;\nstart = aa bb cc dd ee | \"x\";\n",
 		"grammar g;\nAB = /a{3,2}/\nCD = /[z-a]/\nEF = /(/\nGH = /b{2,1}/\nstart = AB CD EF GH;\n",
 		"grammar g;\nIF = \"if\"\nPLUS = \"+\"\nADD = \"+\"\nSUM = \"+\"\nstart = IF \"if\" PLUS ADD SUM;\n",
+		// definitions without a position of their own (string literals) that collide: two spellings of the same text
+		"grammar g;\nNUM = /[0-9]+/\nstart = NUM \"-\" NUM | NUM \"\\-\" \"\\-\" NUM | \"a\" \"\\a\" | \"+\" \"\\+\";\n",
+		// conflicts whose report names several synthesised rules
+		"grammar g;\nNUM = /[0-9]+/\nstart = expr;\nexpr = expr ( \"+\" | \"-\" ) expr | expr ( \"*\" | \"/\" ) expr | [ \"-\" \"-\" ] NUM | { \"!\" \"?\" } \"x\";\n",
+		// handles in two levels, several at once
+		"grammar g;\n@left \"+\" \"-\" \"*\"\n@right \"-\" \"+\" \"*\"\n@none \"*\" \"+\"\nstart = start \"+\" start | start \"-\" start | start \"*\" start | \"i\";\n",
+		// several tokens used without definition, several unknown predefined names
+		"grammar g;\nAA = $NOPE\nBB = $NADA\nCC = $NIX\nstart = AA BB CC DD EE FF;\n",
 	}
 	for _, s := range specs {
 		o, err := checkSpec(s, true)
